@@ -16,7 +16,7 @@
    cannot belong to the span's class, so Python's backtracking never finds a shorter match and
    "maximal span, then test the rest" is exact.  [$] matches at the end and before a final newline;
    [\Z] only at the end.  None of the substituted patterns can match the empty string except
-   [^ *$], which is anchored (one match attempt at position 0).
+   [^ *$], which is anchored (one match attempt at position 0); the replacement of [ +\Z] is empty.
 
    The regex sources, guards and replacement expressions are carried next to each scanner
    ([fmt_steps], [min_steps]) and pinned to the constants regenerated from lua.py in
@@ -133,15 +133,29 @@ Definition m_nl_nl1 (rep : list Z) : matcher := fun s =>
   | [] => None
   end.
 
-(* br'[ \n]+$' -> b'\n' : the span must reach the end of the string (a shorter match would need [$]
-   before a final newline, but the greedy span has already taken that newline) *)
-Definition m_spnl1_end : matcher := fun s =>
+(* br'[ \n]*\n[ \n]*\Z' -> b'\n' : the span of blanks and line feeds must reach the end of the string and
+   hold a line feed (the greedy [ \n]* backtracks to the last line feed of the span) *)
+Definition m_spnl_nl_end : matcher := fun s =>
   match s with
   | c :: _ =>
     if is_sp_nl c then
       let '(n, t) := span_p is_sp_nl s in
       match t with
-      | [] => Some ([NL], n)
+      | [] => if existsb is_nl s then Some ([NL], n) else None
+      | _ => None
+      end
+    else None
+  | [] => None
+  end.
+
+(* br' +\Z' -> b'' *)
+Definition m_sp1_end : matcher := fun s =>
+  match s with
+  | c :: _ =>
+    if c =? SP then
+      let '(n, t) := span_p is_sp s in
+      match t with
+      | [] => Some ([], n)
       | _ => None
       end
     else None
@@ -243,7 +257,8 @@ Definition fmt_steps : list step := [
           (fun cfg => resub (m_nl_sp_end (indent_bytes cfg)) 0);
   mk_step GStart "^ *$"%bs "b''"%bs (fun _ => sub_head_sp_dollar);
   mk_step GAlways "\n\n+"%bs "b'\n\n'"%bs (fun _ => resub (m_nl_nl1 [NL; NL]) 0);
-  mk_step GEnd "[ \n]+$"%bs "b'\n'"%bs (fun _ => resub m_spnl1_end 0)
+  mk_step GEnd "[ \n]*\n[ \n]*\Z"%bs "b'\n'"%bs (fun _ => resub m_spnl_nl_end 0);
+  mk_step GEnd " +\Z"%bs "b''"%bs (fun _ => resub m_sp1_end 0)
 ].
 
 Definition run_steps (steps : list step) (cfg : fcfg) (r : list Z) : list Z :=
